@@ -26,12 +26,48 @@ type c02Case struct {
 }
 
 func c02Gen(t *rapid.T) c02Case {
-	return c02Case{
+	c := c02Case{
 		G:     genEG(t, egGenOpts{MaxNT: 4, Terms: 6, NodePct: 60, Lists: true, MaxDepth: 2, NestedNode: true}),
 		Space: rapid.Bool().Draw(t, "space"),
 		Opt:   rapid.Bool().Draw(t, "optimize"),
 		Seed:  rapid.IntRange(0, 1<<30).Draw(t, "seed"),
 	}
+	// Near-duplicates: the same list or optional group once more, with a different annotation on
+	// its element (Textmapper shares extracted nonterminals between equal expressions; these are
+	// equal up to the node name).
+	if rapid.IntRange(0, 2).Draw(t, "twin") == 0 {
+		var cands []*egPart
+		var walk func(a *egAlt)
+		walk = func(a *egAlt) {
+			for _, p := range a.Parts {
+				if p.K == "list" || p.K == "opt" {
+					cands = append(cands, p)
+				}
+				for _, s := range p.Alts {
+					walk(s)
+				}
+			}
+		}
+		for _, nt := range c.G.NTs {
+			for _, a := range nt.Alts {
+				walk(a)
+			}
+		}
+		if len(cands) > 0 {
+			src := cands[rapid.IntRange(0, len(cands)-1).Draw(t, "twinOf")]
+			var cp egPart
+			js, _ := json.Marshal(src)
+			json.Unmarshal(js, &cp)
+			old := cp.Alts[0].Node
+			for cp.Alts[0].Node == old {
+				cp.Alts[0].Node = fmt.Sprintf("N%d", rapid.IntRange(0, 6).Draw(t, "twinNode"))
+			}
+			nt := c.G.NTs[rapid.IntRange(0, len(c.G.NTs)-1).Draw(t, "twinNT")]
+			a := nt.Alts[rapid.IntRange(0, len(nt.Alts)-1).Draw(t, "twinAlt")]
+			a.Parts = append(a.Parts, &egPart{K: "t", Sym: rapid.IntRange(1, c.G.T-1).Draw(t, "twinGuard")}, &cp)
+		}
+	}
+	return c
 }
 
 // eventAdapter: VerifRun returns "<events>|ok" or "<events>|err <off> <end>", events as
